@@ -18,8 +18,33 @@ object model — non-ASCII planted at every position that can hold it — are de
 implementation.  One defect repaired: escapes in unknown at-keywords were not read back.
 -/
 import CssVerif.Proofs.Escape
+import CssVerif.Gen.Productions
 namespace CssVerif.C13
 open CssVerif.Escape
+open CssVerif CssVerif.Re
+
+/-! ### obligation on the regenerated table: the tokenizer's escape pattern is the one the reading
+specification `cssUnescape` stands for -/
+
+def isHexC (c : Nat) : Bool := (48 ≤ c && c ≤ 57) || (97 ≤ c && c ≤ 102) || (65 ≤ c && c ≤ 70)
+def isCssWs (c : Nat) : Bool := c = 9 || c = 10 || c = 12 || c = 13 || c = 32
+
+/-- `Tokenizer.unicodesub` as regenerated from /repo is: a backslash, one to six characters of a class that
+holds exactly the hex digits, and optionally CR LF or one character of a class that holds exactly the five
+CSS white-space characters (not Python's `\s`: no NBSP, no U+3000, no vertical tab) -/
+theorem gen_unicodesub_shape : ∃ hex ws,
+    Gen.unicodesub = .seq (.cls false [(92, 92)]) (.seq (.cls false hex)
+      (.seq (.opt (.seq (.cls false hex) (.opt (.seq (.cls false hex) (.opt (.seq (.cls false hex)
+        (.opt (.seq (.cls false hex) (.opt (.cls false hex))))))))))
+      (.opt (.alt (.seq (.cls false [(13, 13)]) (.cls false [(10, 10)])) (.cls false ws))))) ∧
+    (∀ c, clsMatch false hex c = isHexC c) ∧ (∀ c, clsMatch false ws c = isCssWs c) := by
+  refine ⟨[(48, 57), (97, 102), (65, 70)], [(9, 9), (13, 13), (10, 10), (12, 12), (32, 32)], rfl, ?_, ?_⟩
+  · intro c
+    simp only [clsMatch, inRanges, isHexC, Bool.false_eq_true, if_false, Bool.or_false, Bool.or_assoc]
+  · intro c
+    simp only [clsMatch, inRanges, isCssWs, Bool.false_eq_true, if_false, Bool.or_false]
+    by_cases h9 : c = 9 <;> by_cases h10 : c = 10 <;> by_cases h12 : c = 12 <;> by_cases h13 : c = 13 <;>
+      by_cases h32 : c = 32 <;> simp_all <;> omega
 
 theorem written_is_encodable (can : Nat → Bool) (t : Text) (h92 : can 92 = true) (h32 : can 32 = true)
     (hhex : ∀ d, d < 16 → can (hexDigit d) = true) (hu : ∀ c ∈ t, c ≤ 0x10FFFF) :
